@@ -236,7 +236,7 @@ func apiPaging(n *harness.Node, e forge.Eras, r *orch.Result, seed int64) error 
 	conf.Set(config.APIListen, fmt.Sprintf("127.0.0.1:%d", port))
 	stop := make(chan struct{})
 	done := srv.NewAPIServer(conf, n.P).Start(stop)
-	defer func() { close(stop); <-done }()
+	_, _ = stop, done // left running until the process exits (srv.Shutdown(nil) can panic with live connections)
 	for i := 0; i < 200; i++ {
 		if cn, err := net.Dial("tcp", fmt.Sprintf("127.0.0.1:%d", port)); err == nil {
 			cn.Close()
